@@ -1,4 +1,5 @@
 import Pyc.Proofs.AddrLeaf
+import Pyc.Proofs.NativeScript
 
 /-! # C01 (extension) — the leaf codecs of `TransactionOutput`, closed
 
@@ -40,6 +41,23 @@ theorem output_roundtrip_real_address {N : Type} (Ln : Leaf N) (hn : Ln.Lawful) 
     decOutput (realLeaves Ln) (itemOutput (realLeaves Ln) o) = .ok (decodedOutput o) :=
   decOutput_itemOutput (realLeaves Ln) (realLeaves_lawful Ln hn) o h
 
+/-- **`TransactionOutput` round trip with NO assumed leaf**: the address codec is the model of `Address.to_primitive` /
+`from_primitive`, the native-script codec is the model of `NativeScript.to_primitive` / `from_primitive`
+(Pyc/Model/NativeScript.lean), the inline datum is the primitive the implementation restores it to.  Every well-formed
+output — legacy or map form, datum hash / inline datum / reference script of any language, any address kind, native
+scripts of any depth — decodes to `decodedOutput o` (= `o` with the amount normalised, for a constructed output). -/
+theorem output_roundtrip_closed (o : Output VAddr Item Pyc.NativeScript.WScript)
+    (h : OutputOk (realLeaves Pyc.NativeScript.nsLeaf) o) :
+    decOutput (realLeaves Pyc.NativeScript.nsLeaf) (itemOutput (realLeaves Pyc.NativeScript.nsLeaf) o) = .ok (decodedOutput o) :=
+  output_roundtrip_real_address Pyc.NativeScript.nsLeaf ⟨Pyc.NativeScript.nsLeaf_rt⟩ o h
+
+/-- … and re-encoding the decoded output reproduces the bytes (C03's `output_reencode`, closed the same way) -/
+theorem output_reencode_closed (o : Output VAddr Item Pyc.NativeScript.WScript)
+    (h : OutputOk (realLeaves Pyc.NativeScript.nsLeaf) o) :
+    ∃ o', decOutput (realLeaves Pyc.NativeScript.nsLeaf) (itemOutput (realLeaves Pyc.NativeScript.nsLeaf) o) = .ok o' ∧
+      itemOutput (realLeaves Pyc.NativeScript.nsLeaf) o' = itemOutput (realLeaves Pyc.NativeScript.nsLeaf) o :=
+  ⟨decodedOutput o, output_roundtrip_closed o h, itemOutput_decodedOutput (realLeaves Pyc.NativeScript.nsLeaf) o⟩
+
 /-! non-vacuity: a base address on mainnet and a script-pointer address on testnet are valid, and are restored -/
 def exBase : Address := ⟨.vkh (List.replicate 28 7), .sh (List.replicate 28 9), .mainnet⟩
 def exPtr : Address := ⟨.sh (List.replicate 28 1), .ptr (2 ^ 40) 129 0, .testnet⟩
@@ -57,3 +75,5 @@ end Pyc.C01.Leaves
 #print axioms Pyc.C01.Leaves.addr_refuses_other_kinds
 #print axioms Pyc.C01.Leaves.realLeaves_lawful
 #print axioms Pyc.C01.Leaves.output_roundtrip_real_address
+#print axioms Pyc.C01.Leaves.output_roundtrip_closed
+#print axioms Pyc.C01.Leaves.output_reencode_closed
